@@ -13,8 +13,17 @@ pub fn gen_scenario(r: &mut Rng, big: bool) -> Scenario {
     let mut args = vec!["-t".to_string(), nblock.to_string()];
     // names: any bytes incl. empty, whitespace, non-ASCII UTF-8
     const NAMES: [&str; 8] = ["776f726b6572", "", "c3a9c3a8", "20782020", "e697a5e69cac", "61", "6d61696e2d6c6f6f70", "09"];
+    // names the kernel reports that are not valid UTF-8: a lone continuation / lead byte, a multi-byte character cut in
+    // half by the 15-byte limit — in the middle of the list, so that readable names follow an unreadable one
+    const BAD_NAMES: [&str; 4] = ["ff", "72656e6465722de697a5e69cace8aa", "c3", "61ff62"];
+    let mut rn = Rng::new(r.0 ^ 0x3c6e_f372_fe94_f82b);
+    let bad_at: Option<usize> = if rn.chance(1, 4) { Some(rn.below(nblock as u64 + 1) as usize) } else { None };
     for i in 0..=nblock {
-        if r.chance(2, 3) {
+        if Some(i) == bad_at {
+            let _ = r.chance(2, 3);
+            args.push("-n".into());
+            args.push(format!("{}:{}", i, rn.pick(&BAD_NAMES)));
+        } else if r.chance(2, 3) {
             args.push("-n".into());
             args.push(format!("{}:{}", i, r.pick(&NAMES)));
         }
@@ -26,6 +35,13 @@ pub fn gen_scenario(r: &mut Rng, big: bool) -> Scenario {
     for _ in 0..r.below(3) {
         args.push("-r".into());
         args.push(format!("{}:{}", *r.pick(&[1u64, 7, 8, 100, 4096, 5000, 70000]), *r.pick(&["u", "n", "r"])));
+    }
+    {
+        let mut r4 = Rng::new(r.0 ^ 0x510e_527f_ade6_82d1);
+        if r4.chance(1, 4) {
+            // something mapped below the executable (the entry-point module is then not the first line of the memory map)
+            args.push("-L".into());
+        }
     }
     if r.chance(1, 2) {
         args.push("-F".into());
@@ -172,6 +188,20 @@ pub fn gen_cfg(r: &mut Rng, t: &Target) -> DumpCfg {
     for reg in regions {
         if reg["kind"].as_str() != Some("x") && r.chance(1, 2) {
             cfg.app_memory.push((reg["addr"].as_u64().unwrap(), reg["len"].as_u64().unwrap()));
+        }
+    }
+    // a requested region may run past the end of what can be read (an unmapped or inaccessible page follows): the
+    // readable part is recorded, with its real length (side stream)
+    {
+        let mut r2 = Rng::new(r.0 ^ 0xa54f_f53a_5f1d_36f1);
+        for reg in regions {
+            let kind = reg["kind"].as_str().unwrap_or("r");
+            if (kind == "u" || kind == "n") && r2.chance(1, 4) {
+                let (a, l) = (reg["addr"].as_u64().unwrap(), reg["len"].as_u64().unwrap());
+                let back = r2.below(l.min(64)) ;
+                cfg.app_memory.retain(|(p, _)| *p != a);
+                cfg.app_memory.push((a + back, l - back + *r2.pick(&[1u64, 8, 4096, 8192 + 5])));
+            }
         }
     }
     if r.chance(1, 4) {
